@@ -219,6 +219,51 @@ func c02r3(c *Ctx) {
 		}
 	}
 	c.whoMay(rule, "write Stream.decryptCounter", wr, poss, fnSet(dec, ssk, imp))
+	// the base IV is taken from the wire only while decryptCounter == 0 (first frame); later frames cannot re-seat it
+	var ivW []*ssa.Function
+	nIV := 0
+	for _, a := range c.fieldAccesses(iv) {
+		if !a.Write {
+			continue
+		}
+		ivW = append(ivW, a.Fn)
+		poss[a.Fn] = a.Instr.Pos()
+		if a.Fn != dec {
+			continue
+		}
+		nIV++
+		cuts := newCuts()
+		for _, b := range dec.Blocks {
+			ifi := blockIf(b)
+			if ifi == nil {
+				continue
+			}
+			// the branch condition must be (an alias of) decryptCounter == 0
+			at := condAtom(ifi.Cond)
+			cond := at.X
+			if at.Op != token.ILLEGAL {
+				cond = ifi.Cond
+				at.Neg = false
+			}
+			for _, o := range origins(dec, cond) {
+				bo, ok := o.(*ssa.BinOp)
+				if !ok || bo.Op != token.EQL {
+					continue
+				}
+				k, isC := constInt(bo.Y)
+				if isC && k == 0 && readsField(bo.X, ctr) {
+					if at.Neg {
+						cuts.AddEdges(Edge{b, 1})
+					} else {
+						cuts.AddEdges(Edge{b, 0})
+					}
+				}
+			}
+		}
+		c.mustPassInstr(rule, "decryptIV<-wire", dec, a.Instr, cuts, "the decryptCounter == 0 edge")
+	}
+	c.whoMay(rule, "write Stream.decryptIV", ivW, poss, fnSet(dec, imp))
+	c.MinCount(rule, "writes of decryptIV in decryptDataWithAAD", nIV, 1)
 	// receivers pass the header they parsed
 	n := 0
 	for _, name := range []string{"(*Stream).ReceiveFrame", "(*Stream).ReceiveFrameWithEnd"} {
@@ -297,4 +342,142 @@ func c02r4(c *Ctx) {
 		})
 		c.Check(ok, rule, fnName(rfe)+"#flag-result", "returned end flag is byte 0 of the header read from the wire", "returned end flag is not byte 0 of the header read from the wire", t.Ret.Pos())
 	}
+}
+
+func init() { register("C02", c02r5) }
+
+// C02-R5: reassembly never completes a message on a failed or non-final frame.
+func c02r5(c *Ctx) {
+	const rule = "C02-R5"
+	c.Doc(rule, "in ReceiveCompleteMessage, readNextFrame, ReadFrame and message.ensureData no success return is reachable from the error edge of the frame read without a later nil-error frame read (truncation is an error), and the stream-level reassemblers return success only past an edge on which the authenticated end flag differs from EndFlagPartial")
+	rfe := c.needFn(rule, "stream", "(*Stream).ReceiveFrameWithEnd")
+	var readFrame types.Object
+	if tp := c.PkgTypes("message"); tp != nil {
+		if si := tp.Scope().Lookup("StreamInterface"); si != nil {
+			readFrame, _, _ = types.LookupFieldOrMethod(si.Type(), false, tp, "ReadFrame")
+		}
+	}
+	if readFrame == nil {
+		c.AnchorMissing(rule, "message.StreamInterface.ReadFrame")
+	}
+	partial := c.needObj(rule, "stream", "EndFlagPartial")
+	if rfe == nil || readFrame == nil || partial == nil {
+		return
+	}
+	pv, _ := constantInt(partial)
+	type site struct {
+		pkg, name string
+		callee    types.Object
+		flagRule  bool
+	}
+	sites := []site{
+		{"stream", "(*Stream).ReceiveCompleteMessage", rfe.Object(), true},
+		{"stream", "(*Stream).readNextFrame", rfe.Object(), true},
+		{"stream", "(*Stream).ReadFrame", rfe.Object(), false},
+		{"message", "(*Message).ensureData", readFrame, false},
+	}
+	n := 0
+	for _, s := range sites {
+		fn := c.needFn(rule, s.pkg, s.name)
+		if fn == nil {
+			continue
+		}
+		calls := callsIn(fn, s.callee)
+		if len(calls) == 0 {
+			c.Violate(rule, fnName(fn)+"#frame-read", "no call to "+s.callee.Name()+" found", fn.Pos())
+			continue
+		}
+		okCuts := newCuts()
+		var failEdges []Edge
+		for _, cs := range calls {
+			n++
+			succ, fail, checked := callErrEdges(fn, cs.Value())
+			if !checked {
+				c.Violate(rule, fnName(fn)+"#frame-read-error", "the error of "+s.callee.Name()+" is never tested: a truncated stream would be taken for data", cs.Pos())
+			}
+			okCuts.AddEdges(succ...)
+			failEdges = append(failEdges, fail...)
+		}
+		bad := false
+		for _, e := range failEdges {
+			if len(e.To().Instrs) == 0 {
+				continue
+			}
+			for _, t := range c.successTargets(fn) {
+				if p := findPath(Point{e.To(), 0}, t.Target(), okCuts); p != nil {
+					bad = true
+					c.Violate(rule, fnName(fn)+"#error-edge", "after a failed frame read the function can still return success (message delivered although the stream broke)", t.Ret.Pos(), c.describePath(p)...)
+				}
+			}
+		}
+		if !bad {
+			c.Ok(rule, fnName(fn)+"#error-edge", "a failed frame read always ends in an error return", fn.Pos())
+		}
+		if !s.flagRule {
+			continue
+		}
+		// edges on which the end flag (result #1 of the call) is known to differ from EndFlagPartial
+		cuts := newCuts()
+		for _, cs := range calls {
+			flag := extractN(cs.Value(), 1)
+			if flag == nil {
+				continue
+			}
+			for _, b := range fn.Blocks {
+				ifi := blockIf(b)
+				if ifi == nil {
+					continue
+				}
+				a := condAtom(ifi.Cond)
+				if a.Op != token.EQL && a.Op != token.NEQ {
+					continue
+				}
+				var other ssa.Value
+				if a.X == flag {
+					other = a.Y
+				} else if a.Y == flag {
+					other = a.X
+				} else {
+					continue
+				}
+				k, ok := constInt(other)
+				if !ok {
+					continue
+				}
+				eq := a.Op == token.EQL
+				if a.Neg {
+					eq = !eq
+				}
+				// edge index on which flag == k holds
+				eqEdge, neEdge := Edge{b, 0}, Edge{b, 1}
+				if !eq {
+					eqEdge, neEdge = neEdge, eqEdge
+				}
+				if k == pv {
+					cuts.AddEdges(neEdge) // flag != partial
+				} else {
+					cuts.AddEdges(eqEdge) // flag == some non-partial constant
+				}
+			}
+		}
+		// a tail self-call (return fn(...)) succeeds only if the callee instance did: inductively covered
+		var tg []RetPoint
+		for _, t := range c.successTargets(fn) {
+			ev := t.Ret.Results[len(t.Ret.Results)-1]
+			if call, _ := originCall(ev); call != nil && calleeFn(call) == fn {
+				continue
+			}
+			tg = append(tg, t)
+		}
+		c.mustPassReturns(rule, fn, tg, cuts, "an edge on which the frame's end flag is not EndFlagPartial")
+	}
+	c.MinCount(rule, "frame-read call sites in reassemblers", n, 4)
+}
+
+func constantInt(o types.Object) (int64, bool) {
+	k, ok := o.(*types.Const)
+	if !ok {
+		return 0, false
+	}
+	return constantToInt(k)
 }
